@@ -846,6 +846,33 @@ class DirectoryRecord:
 
         return overflowed
 
+    def check_new_child(self, name):
+        # type: (bytes) -> None
+        """
+        Check that a new child with the given identifier can be added to this
+        directory record.  This raises what add_child() would raise for such a
+        child, but it never changes anything.
+
+        Parameters:
+         name - The identifier of the child that is going to be added.
+        Returns:
+         Nothing.
+        """
+        if not self.initialized:
+            raise pycdlibexception.PyCdlibInternalError('Directory Record not initialized')
+
+        if not self.isdir:
+            raise pycdlibexception.PyCdlibInvalidInput('Trying to add a child to a record that is not a directory')
+
+        # The children are only compared by their identifier, so a bare record
+        # is enough to find the place where the new child would go.
+        probe = DirectoryRecord()
+        probe.file_ident = name
+        index = bisect.bisect_left(self.children, probe)
+        if index != len(self.children) and self.children[index].file_ident == name:
+            if not self.children[index].is_associated_file():
+                raise pycdlibexception.PyCdlibInvalidInput('Failed adding duplicate name to parent')
+
     def add_child(self, child, logical_block_size, allow_duplicate=False):
         # type: (DirectoryRecord, int, bool) -> bool
         """
